@@ -6,14 +6,18 @@ from .common import calls_named
 
 EXPLANATION = (
     "Round-trip equality of values depends on typing introspection, casts and json at run time and is NOT decided. What is "
-    "visible in the shape of the code, and is a necessary condition of the round trip, is that Serializable.toJson and fromJson "
-    "are sibling implementations of one dispatch. Decides: (R1) both handle the same container origins {list, set, dict, tuple} "
-    "with the same guard kind per origin, the same None fall-through and the same final TypeError; (R2) fromJson rebuilds each "
-    "origin with that origin's constructor, toJson emits only lists and dicts; (R3) element types: list/set use args[0], dict keys "
-    "args[0] and values args[1], tuple position i uses the i-th argument and pads missing positions - identically on both sides; "
-    "(R4) _toJsonBasic/_fromJsonBasic dispatch on corresponding predicates; (R5) the enum name maps are filled in one loop from the "
-    "same (name, value) pair and toJson/fromJson read the matching map; (R6) dumps/loads are json.dumps(toJson()) / "
-    "fromJson(json.loads()). Breaking any of these breaks the round trip for that shape."
+    "visible in the code, and is a necessary condition of the round trip, is that Serializable.toJson and fromJson are sibling "
+    "implementations of one dispatch. The branch bodies are not compared as text: rules/jsonshape.py evaluates the if-chain's "
+    "tests for each container origin (list, set, dict, tuple; `is`, `==` and `in (...)` spellings, merged branches) and runs the "
+    "selected body over a small term language (listof / poslist / dictof / conv(type argument, part of the value) / rebuilding "
+    "constructor), so loops, comprehensions and temporaries give the same term. Decides: (R1) both sides select a guarded branch "
+    "for each origin with the same guard kind, send None to a branch that stores None and anything else to TypeError; (R2) fromJson "
+    "converts list/set elements with the first type argument, dict keys/values with the first/second, tuple position i with the i-th "
+    "(padding missing positions with None) and rebuilds the annotated container kind; (R3) toJson emits plain lists/dicts using the "
+    "same type argument for the same part of the value as fromJson; (R4) _toJsonBasic/_fromJsonBasic dispatch on corresponding "
+    "predicates; (R5) the enum name maps are filled in one loop from the same (name, value) pair and toJson/fromJson read the "
+    "matching map; (R6) dumps/loads are json.dumps(toJson()) / fromJson(json.loads()). Breaking any of these breaks the round trip "
+    "for that shape."
 )
 ASSUMPTIONS = ["typing.get_origin/get_args, json.dumps/loads and the casts behave as documented (not analysed)"]
 
@@ -21,57 +25,70 @@ M = "serializable"
 ORIGINS = ("list", "set", "dict", "tuple")
 
 
-def _branches(ctx, fi, subject):
-    """origin -> (guard text, branch body) from the `if origin is X and isinstance(subject, G)` chain; plus ('none', body), ('else', body)"""
-    out = {}
-    chain = None
-    for n in walk_own(fi.node):
-        if isinstance(n, ast.If) and norm(n.test).startswith("origin is list"):
-            chain = n
-            break
-    node = chain
-    while node is not None:
-        t = node.test
-        txt = norm(t)
-        if isinstance(t, ast.BoolOp) and isinstance(t.op, ast.And) and len(t.values) == 2 and norm(t.values[0]).startswith("origin is "):
-            o = norm(t.values[0])[len("origin is "):]
-            g = t.values[1]
-            guard = norm(g.args[1]) if isinstance(g, ast.Call) and norm(g.func) == "isinstance" and norm(g.args[0]) == subject else "?" + norm(g)
-            out[o] = (guard, node.body)
-        elif txt == "%s is None" % subject:
-            out["none"] = (txt, node.body)
-        else:
-            out["?" + txt] = (txt, node.body)
-        if len(node.orelse) == 1 and isinstance(node.orelse[0], ast.If):
-            node = node.orelse[0]
-        else:
-            out["else"] = ("else", node.orelse)
-            node = None
+from . import jsonshape as js
+
+SIDES = (("toJson", "_toJsonBasic", "obj[field]", "to"), ("fromJson", "_fromJsonBasic", "setattr", "from"))
+MAPPING_KINDS = {"Mapping", "dict", "MutableMapping"}
+
+
+def _side(ctx, rule, name):
+    fi = ctx.fn("%s:Serializable.%s" % (M, name))
+    chain = js.find_chain(fi)
+    if not ctx.require(rule, fi, "container dispatch (if-chain on `origin`) in %s" % name, 1 if chain is not None else 0, 1):
+        return fi, None, None
+    subject = js.subject_of(chain)
+    if subject is None:
+        ctx.undecided(rule, fi, "%s: the dispatched value (first argument of the isinstance guards) is not unique" % name)
+        return fi, None, None
+    return fi, chain, subject
+
+
+def _guard_names(guards):
+    out = set()
+    for g in guards:
+        try:
+            for n in ast.walk(ast.parse(g, mode="eval")):
+                if isinstance(n, ast.Name):
+                    out.add(n.id)
+                elif isinstance(n, ast.Attribute):
+                    out.add(n.attr)
+        except SyntaxError:
+            out.add(g)
     return out
 
 
-def _basic_calls(body, helper):
-    return [c for s in body for c in ast.walk(s) if isinstance(c, ast.Call) and norm(c.func) == helper]
-
-
 def r1(ctx):
+    """dispatch structure: both sides select a branch for each container origin, with a guard of the same kind, send None
+    to a None branch and everything else to TypeError"""
+    sel = {}
+    for (name, helper, sink, side) in SIDES:
+        fi, chain, subject = _side(ctx, "C15.R1", name)
+        if chain is None:
+            return
+        for o in js.ORIGINS:
+            body, guards, node = js.select(chain, o, subject)
+            if body is None:
+                ctx.undecided("C15.R1", fi, "%s: test `%s` cannot be evaluated for origin %s" % (name, norm(node.test), o))
+                return
+            sel[(side, o)] = (body, _guard_names(guards), node)
+            ctx.check(node is not None and bool(guards), "C15.R1", fi, "%s: origin %s is handled by a guarded branch" % (name, o),
+                      "a shape handled on one side only cannot round-trip", witness={"guards": sorted(_guard_names(guards))})
+            nb, _, nn = js.select(chain, o, subject, is_none=True)
+            t = js.branch_term(fi, nb, subject, helper, sink) if nb is not None else ("?", "undecidable")
+            ctx.check(t == ("none",), "C15.R1", fi, "%s: None in a field annotated %s stays None" % (name, o), "None for a container field round-trips as None",
+                      witness=js.show(t))
+        # a generic origin that is none of the four (and a value that fails its guard) raises TypeError
+        eb, _, en = js.select(chain, "<other>", subject)
+        t = js.branch_term(fi, eb, subject, helper, sink) if eb is not None else ("?", "undecidable")
+        ctx.check(t == ("raise", "TypeError"), "C15.R1", fi, "%s: a value that matches no shape raises TypeError" % name, witness=js.show(t))
+    for o in js.ORIGINS:
+        gt, gf = sel[("to", o)][1], sel[("from", o)][1]
+        if o == "dict":
+            ok = gt == gf and bool(gt) and gt <= MAPPING_KINDS
+        else:
+            ok = gt == gf and bool(gt) and not (gt & MAPPING_KINDS)
+        ctx.check(ok, "C15.R1", ctx.fn("%s:Serializable.fromJson" % M), "origin %s: same guard kind on both sides" % o, witness={"toJson": sorted(gt), "fromJson": sorted(gf)})
     tj, fj = ctx.fn("%s:Serializable.toJson" % M), ctx.fn("%s:Serializable.fromJson" % M)
-    bt, bf = _branches(ctx, tj, "record"), _branches(ctx, fj, "record[field]")
-    ctx.check(set(bt) == set(bf) == set(ORIGINS) | {"none", "else"}, "C15.R1", tj, "toJson and fromJson handle the same origins {list, set, dict, tuple}, None and else",
-              "a shape handled on one side only cannot round-trip", witness={"toJson": sorted(bt), "fromJson": sorted(bf)})
-    for o in ORIGINS:
-        if o in bt and o in bf:
-            ctx.check(bt[o][0] == bf[o][0] and bt[o][0] == ("Mapping" if o == "dict" else "(Iterable, Sequence)"), "C15.R1", fj, "origin %s: same guard kind on both sides" % o,
-                      witness={"toJson": bt[o][0], "fromJson": bf[o][0]})
-    for name, b in (("toJson", bt), ("fromJson", bf)):
-        fi = tj if name == "toJson" else fj
-        e = b.get("else", ("", []))[1]
-        ok = len(e) == 1 and isinstance(e[0], ast.Raise) and isinstance(e[0].exc, ast.Call) and norm(e[0].exc.func) == "TypeError"
-        ctx.check(ok, "C15.R1", fi, "%s: a value that matches no shape raises TypeError" % name)
-    # None fall-through stores/emits None
-    if "none" in bt and "none" in bf:
-        ctx.check(norm(bt["none"][1][0]) == "obj[field] = None" and norm(bf["none"][1][0]) == "setattr(inst, field, None)", "C15.R1", tj, "None for a container field round-trips as None",
-                  witness=[norm(bt["none"][1][0]), norm(bf["none"][1][0])])
     # same outer structure: iterate _fields; origin = get_origin(annotation); args = get_args(annotation)
     for fi, owner in ((tj, "self"), (fj, "inst")):
         loops = [n for n in walk_own(fi.node) if isinstance(n, ast.For) and norm(n.iter) == "%s._fields" % owner]
@@ -84,68 +101,49 @@ def r1(ctx):
     ctx.check(len(g) == 1, "C15.R1", fj, "fromJson sets exactly the fields present in the record")
 
 
+def _terms(ctx, rule):
+    out = {}
+    for (name, helper, sink, side) in SIDES:
+        fi, chain, subject = _side(ctx, rule, name)
+        if chain is None:
+            return None
+        for o in js.ORIGINS:
+            body, guards, node = js.select(chain, o, subject)
+            out[(side, o)] = (fi, js.branch_term(fi, body, subject, helper, sink) if body is not None else ("?", "undecidable"))
+    return out
+
+
+WHAT = {"list": "every element converted with the first type argument", "set": "every element converted with the first type argument",
+        "dict": "keys converted with the first and values with the second type argument",
+        "tuple": "position i converted with the i-th type argument, missing positions padded with None"}
+
+
 def r2(ctx):
-    tj, fj = ctx.fn("%s:Serializable.toJson" % M), ctx.fn("%s:Serializable.fromJson" % M)
-    bt, bf = _branches(ctx, tj, "record"), _branches(ctx, fj, "record[field]")
-    want_from = {"list": "lst", "set": "set(lst)", "dict": "map", "tuple": "tuple(lst)"}
-    for o, expr in want_from.items():
-        if o not in bf:
-            continue
-        sets = [c for s in bf[o][1] for c in ast.walk(s) if isinstance(c, ast.Call) and norm(c.func) == "setattr"]
-        ok = len(sets) == 1 and [norm(a) for a in sets[0].args] == ["inst", "field", expr]
-        # and the temporary has the right literal type
-        tmp = expr.replace("set(", "").replace("tuple(", "").rstrip(")")
-        init = [s for s in bf[o][1] if isinstance(s, ast.Assign) and norm(s.targets[0]) == tmp]
-        ok = ok and len(init) == 1 and norm(init[0].value) == ("{}" if o == "dict" else "[]")
-        ctx.check(ok, "C15.R2", fj, "origin %s is rebuilt as %s" % (o, expr), "the reconstructed container has the annotated kind", witness=[norm(s) for s in sets])
-    want_to = {"list": "lst", "set": "lst", "dict": "map", "tuple": "lst"}
-    for o, expr in want_to.items():
-        if o not in bt:
-            continue
-        st = [s for s in bt[o][1] if isinstance(s, ast.Assign) and norm(s.targets[0]) == "obj[field]"]
-        init = [s for s in bt[o][1] if isinstance(s, ast.Assign) and norm(s.targets[0]) == expr]
-        ok = len(st) == 1 and norm(st[0].value) == expr and len(init) == 1 and norm(init[0].value) == ("{}" if o == "dict" else "[]")
-        ctx.check(ok, "C15.R2", tj, "origin %s is emitted as a plain %s" % (o, "dict" if o == "dict" else "list"), "json.dumps accepts the result", witness=[norm(s) for s in st])
+    """fromJson: per origin, which type argument converts which part of the JSON value, and the container that is rebuilt"""
+    terms = _terms(ctx, "C15.R2")
+    if terms is None:
+        return
+    for o in js.ORIGINS:
+        fi, t = terms[("from", o)]
+        ctx.check(t in js.expected(o, "from"), "C15.R2", fi, "fromJson/%s: %s; rebuilt as %s" % (o, WHAT[o], o), "the reconstructed container has the annotated kind and element types",
+                  witness={"found": js.show(t), "expected": [js.show(x) for x in js.expected(o, "from")]})
 
 
 def r3(ctx):
-    tj, fj = ctx.fn("%s:Serializable.toJson" % M), ctx.fn("%s:Serializable.fromJson" % M)
-    bt, bf = _branches(ctx, tj, "record"), _branches(ctx, fj, "record[field]")
-    for side, fi, b, helper, subject in (("toJson", tj, bt, "_toJsonBasic", "record"), ("fromJson", fj, bf, "_fromJsonBasic", "record[field]")):
-        for o in ("list", "set"):
-            if o not in b:
-                continue
-            cs = _basic_calls(b[o][1], helper)
-            loops = [s for s in b[o][1] if isinstance(s, ast.For)]
-            ok = len(cs) == 1 and len(loops) == 1 and norm(loops[0].iter) == subject and [norm(a) for a in cs[0].args] == ["args[0]", "field", norm(loops[0].target)]
-            ctx.check(ok, "C15.R3", fi, "%s/%s: every element converted with args[0]" % (side, o), witness=[norm(c) for c in cs])
-        if "dict" in b:
-            cs = _basic_calls(b["dict"][1], helper)
-            loops = [s for s in b["dict"][1] if isinstance(s, ast.For)]
-            ok = len(cs) == 2 and len(loops) == 1 and norm(loops[0].iter) == "%s.items()" % subject and isinstance(loops[0].target, ast.Tuple)
-            if ok:
-                k, v = [norm(e) for e in loops[0].target.elts]
-                ok = [norm(a) for a in cs[0].args] == ["args[0]", "field", k] and [norm(a) for a in cs[1].args] == ["args[1]", "field", v]
-                st = [s for s in loops[0].body if isinstance(s, ast.Assign) and isinstance(s.targets[0], ast.Subscript)]
-                kd = {norm(s.targets[0]): s for s in loops[0].body if isinstance(s, ast.Assign) and isinstance(s.value, ast.Call)}
-                ok = ok and len(st) == 1 and kd.get(norm(st[0].targets[0].slice)) is not None and kd[norm(st[0].targets[0].slice)].value is cs[0] and \
-                    kd.get(norm(st[0].value)) is not None and kd[norm(st[0].value)].value is cs[1]
-            ctx.check(ok, "C15.R3", fi, "%s/dict: keys converted with args[0], values with args[1], stored as map[key] = value" % side, witness=[norm(c) for c in cs])
-        if "tuple" in b:
-            cs = _basic_calls(b["tuple"][1], helper)
-            loops = [s for s in b["tuple"][1] if isinstance(s, ast.For)]
-            ok = len(cs) == 1 and len(loops) == 1 and norm(loops[0].iter) == "enumerate(args)" and isinstance(loops[0].target, ast.Tuple)
-            if ok:
-                i, t = [norm(e) for e in loops[0].target.elts]
-                conds = [n for n in loops[0].body if isinstance(n, ast.If)]
-                ok = len(conds) == 1 and norm(conds[0].test) == "%s < len(%s)" % (i, subject) and norm(cs[0].args[0]) == t
-                val = norm(cs[0].args[2])
-                src = [s for s in conds[0].body if isinstance(s, ast.Assign) and norm(s.targets[0]) == val]
-                ok = ok and (val == "%s[%s]" % (subject, i) or (len(src) == 1 and norm(src[0].value) == "%s[%s]" % (subject, i)))
-                pad = [c for s in conds[0].orelse for c in ast.walk(s) if isinstance(c, ast.Call) and norm(c.func) == "lst.append"]
-                ok = ok and len(pad) == 1 and norm(pad[0].args[0]) == "None"
-            ctx.check(ok, "C15.R3", fi, "%s/tuple: position i converted with the i-th type argument, missing positions padded with None" % side, witness=[norm(c) for c in cs])
+    """toJson: per origin, the emitted JSON structure; and agreement of the two sides on the type argument used at each place"""
+    terms = _terms(ctx, "C15.R3")
+    if terms is None:
+        return
+    for o in js.ORIGINS:
+        fi, t = terms[("to", o)]
+        ctx.check(t in js.expected(o, "to"), "C15.R3", fi, "toJson/%s: %s; emitted as a plain %s" % (o, WHAT[o], "dict" if o == "dict" else "list"), "json.dumps accepts the result and fromJson can undo it",
+                  witness={"found": js.show(t), "expected": [js.show(x) for x in js.expected(o, "to")]})
+        ft = terms[("from", o)][1]
+        core = ft[2] if ft[0] == "call" else ft
+        ctx.check(core == t, "C15.R3", fi, "%s: both directions use the same type argument for the same part of the value" % o,
+                  "a part converted with one type on the way out and another on the way in does not round-trip", witness={"toJson": js.show(t), "fromJson": js.show(ft)})
     # non-generic fields
+    tj, fj = ctx.fn("%s:Serializable.toJson" % M), ctx.fn("%s:Serializable.fromJson" % M)
     for side, fi, helper in (("toJson", tj, "_toJsonBasic"), ("fromJson", fj, "_fromJsonBasic")):
         cs = [c for c in walk_own(fi.node) if isinstance(c, ast.Call) and norm(c.func) == helper and "__annotations__[field]" in norm(c) or
               (isinstance(c, ast.Call) and norm(c.func) == helper and norm(c.args[0]) == "type_")]
